@@ -10,6 +10,14 @@ def evaluate(mod, cases, work, tag='main'):
     """Run implementation + model on cases. Returns list of result dicts."""
     obs = C.run_impl(mod.__name__.split('.')[-1], cases, tmo=getattr(mod, 'CASE_TIMEOUT', 20.0),
                      workers=getattr(mod, 'WORKERS', None))
+    # an exception escaping impl() is re-tried once: only reproducible outcomes are judged
+    # (guards against environment flakes such as import races under load)
+    redo = [i for i, o in enumerate(obs) if isinstance(o, dict) and 'raises' in o]
+    if redo and len(redo) <= max(50, len(cases) // 2):
+        again = C.run_impl(mod.__name__.split('.')[-1], [cases[i] for i in redo],
+                           tmo=getattr(mod, 'CASE_TIMEOUT', 20.0), workers=getattr(mod, 'WORKERS', None))
+        for i, o in zip(redo, again):
+            obs[i] = o
     terms, idx = [], []
     pyres = []
     for i, (c, o) in enumerate(zip(cases, obs)):
